@@ -180,15 +180,19 @@ __CPROVER_assigns(g_closes, g_closes_other);
 /* scoped_fd(filename, flags): open(2) succeeded (a descriptor) or cannot_open_file was thrown;  phosg::fstat(fd).st_size:
  * the size the file system reports (g_stat_size >= 0, independent of what read() will deliver) or cannot_stat_file */
 extern ssize_t g_stat_size;
+/* the flags the caller passes to open(2) are recorded in the ghost g_open_flags: what POSIX promises about the file afterwards
+ * depends on them (O_TRUNC: the previous content is discarded; O_APPEND: writes go to the end; access mode) */
+extern int g_open_flags;
 int c14_open(const void* filename, int flags)
 __CPROVER_requires(verif_exc == 0)
 __CPROVER_ensures((verif_exc == 0 && __CPROVER_return_value >= 0) || verif_exc == EXC_cannot_open_file)
-__CPROVER_assigns(verif_exc);
+__CPROVER_ensures(g_open_flags == flags)
+__CPROVER_assigns(verif_exc, g_open_flags);
 ssize_t c14_fstat_size(int fd)
 __CPROVER_requires(verif_exc == 0)
 __CPROVER_ensures((verif_exc == 0 && __CPROVER_return_value == g_stat_size) || verif_exc == EXC_runtime_error)
 __CPROVER_assigns(verif_exc);
 
-#define C14_GHOSTS ssize_t g_stat_size; size_t g_vk, g_src_len, g_pos, g_wpos; int g_eof_seen, g_err_seen; uint8_t g_sval, g_wval; ssize_t g_chunk; \
+#define C14_GHOSTS int g_open_flags; ssize_t g_stat_size; size_t g_vk, g_src_len, g_pos, g_wpos; int g_eof_seen, g_err_seen; uint8_t g_sval, g_wval; ssize_t g_chunk; \
                    int g_has_nl, g_overrun; const char* g_fg_buf; size_t g_fg_len; int g_fd; unsigned g_closes, g_closes_other;
 #endif
